@@ -177,6 +177,29 @@ func TestC07Exhaustive(t *testing.T) {
 			}
 		}
 	}
+	// runes that a Unicode-aware implementation would wrongly take for ASCII letters, digits or
+	// separators (case folding to ASCII, unicode.IsLetter / IsDigit, full-width forms, look-alikes),
+	// substituted and inserted at every position of the skeletons
+	if idx == 0 {
+		for _, sk := range skels {
+			for pos := 0; pos <= len(sk); pos++ {
+				for _, r := range unicodeLookalikes {
+					ins := sk[:pos] + string(r) + sk[pos:]
+					if msg := checkQName(ins); msg != "" {
+						failQName(t, rec, ins, msg)
+					}
+					rec.Case(qnameNontrivial(ins), ins, func() any { return hexOf(ins) }, append(qnameLabels(ins), "unicode-lookalike")...)
+					if pos < len(sk) {
+						sub := sk[:pos] + string(r) + sk[pos+1:]
+						if msg := checkQName(sub); msg != "" {
+							failQName(t, rec, sub, msg)
+						}
+						rec.Case(qnameNontrivial(sub), sub, nil, append(qnameLabels(sub), "unicode-lookalike")...)
+					}
+				}
+			}
+		}
+	}
 	// all valid part shapes of length 1..3 composed
 	heads := []string{"a", "Z"}
 	mids := []string{"", "a", "1", ".", "-", "_", "a.", "-1"}
@@ -218,6 +241,13 @@ func TestC07Exhaustive(t *testing.T) {
 	}
 }
 
+// unicodeLookalikes: K (Kelvin, lower-cases to k), I with dot above (lower-cases to i), long s and
+// dotless i (upper-case to S / I), Angstrom, full-width a A 0 _ : / = . -, Cyrillic a, hyphen U+2010,
+// one dot leader, fraction slash, soft hyphen, zero-width space, Arabic-Indic zero, superscript two,
+// Roman numeral eight, feminine ordinal, micro sign, sharp s, no-break space.
+var unicodeLookalikes = []rune{0x212A, 0x0130, 0x017F, 0x0131, 0x212B, 0xFF41, 0xFF21, 0xFF10, 0xFF3F, 0xFF1A, 0xFF0F, 0xFF1D, 0xFF0E, 0xFF0D,
+	0x0430, 0x2010, 0x2024, 0x2044, 0x00AD, 0x200B, 0x0660, 0x00B2, 0x2167, 0x00AA, 0x00B5, 0x00DF, 0x00A0}
+
 var (
 	genVC = rapid.Custom(func(t *rapid.T) string {
 		switch rapid.IntRange(0, 5).Draw(t, "vcShape") {
@@ -245,7 +275,7 @@ var (
 
 // nearMiss derives a string one edit away from a valid qualified name.
 func nearMiss(t *rapid.T, v, c, n string) string {
-	bad := []string{"", " ", "/", "=", ":", "_", "-", ".", "é", "\x00", "\xff", "+", ",", "A", "0"}
+	bad := []string{"", " ", "/", "=", ":", "_", "-", ".", "é", "\x00", "\xff", "+", ",", "A", "0", "\u212a", "\u0130", "\u017f", "\uff41", "\u0660", "\u00b2", "\u2010"}
 	parts := []string{v, c, n}
 	k := rapid.IntRange(0, 2).Draw(t, "part")
 	p := parts[k]
